@@ -457,6 +457,70 @@ def check_prefix_and_match(ctx, repo):
             ctx.violation(rule, fil, 'filter', 'candidates that fail to parse abort the filter', fil.node.lineno, clause='b')
 
 
+def check_any(ctx, repo):
+    """(h) an unconstrained Any placeholder compares equal to everything (== True, != False), a
+    constrained one by regex search; anything_like sets every field of get_fields() to Any()"""
+    rule = 'R12-any-equality'
+    an = repo.cls('Any')
+    m = an.methods
+    w = repo.walker()
+    want = {'eq_for_any': True, 'ne_for_any': False}
+    for name, val in want.items():
+        fi = m.get(name)
+        if fi is None:
+            ctx.violation(rule, (an.file, 'Any'), 'Any.%s' % name, 'method not found', an.node.lineno, clause='h')
+            continue
+        rets = [p.ret() for p in w.paths(fi.node, cls=an)]
+        if all(isinstance(r, ast.Constant) and r.value is val for r in rets) and rets:
+            ctx.holds(rule, fi, 'Any.%s -> %s' % (name, val), 'a placeholder matches every value', fi.node.lineno, clause='h')
+        else:
+            ctx.violation(rule, fi, 'Any.%s -> %s' % (name, [canon(r) if r is not None else None for r in rets]), 'an unconstrained placeholder must compare %s to everything: otherwise filter() drops packets the regexp let through' % ('equal' if val else 'not unequal'), fi.node.lineno, clause='h')
+    for name, neg in (('eq_for_regexp', False), ('ne_for_regexp', True)):
+        fi = m.get(name)
+        if fi is None:
+            continue
+        rets = [p.ret() for p in w.paths(fi.node, cls=an)]
+        other = fi.node.args.args[1].arg
+        wanted = ('not ' if neg else '') + 'bool(self.regexp.search(%s))' % other
+        if rets and all(r is not None and canon(r) == wanted for r in rets):
+            ctx.holds(rule, fi, 'Any.%s -> %s' % (name, wanted), 'constrained placeholder: regex search on the value', fi.node.lineno, clause='h')
+        else:
+            ctx.violation(rule, fi, 'Any.%s -> %s' % (name, [canon(r) if r is not None else None for r in rets]), 'expected %s' % wanted, fi.node.lineno, clause='h')
+    for name, a, b in (('__eq__', 'eq_for_any', 'eq_for_regexp'), ('__ne__', 'ne_for_any', 'ne_for_regexp')):
+        fi = m.get(name)
+        if fi is None:
+            ctx.violation(rule, (an.file, 'Any'), 'Any.%s' % name, 'not defined: Python falls back to identity / the negation of __eq__', an.node.lineno, clause='h')
+            continue
+        other = fi.node.args.args[1].arg
+        ok = True
+        for p in w.paths(fi.node, cls=an):
+            gt = set(p.guard_texts())
+            r = p.ret()
+            t = canon(r) if r is not None else None
+            if '(self.regexp is None)' in gt:
+                ok = ok and t == 'self.%s(%s)' % (a, other)
+            elif '(self.regexp is not None)' in gt:
+                ok = ok and t == 'self.%s(%s)' % (b, other)
+            else:
+                ok = False
+        if ok:
+            ctx.holds(rule, fi, 'Any.%s dispatches on regexp is None' % name, 'unconstrained -> %s, constrained -> %s' % (a, b), fi.node.lineno, clause='h')
+        else:
+            ctx.violation(rule, fi, 'Any.%s' % name, 'the comparison does not dispatch to %s / %s on "regexp is None"' % (a, b), fi.node.lineno, clause='h')
+    al = repo.module_funcs.get(('pattern_matching', 'anything_like'))
+    if al is not None:
+        okl = False
+        for lp in [n for n in ast.walk(al.node) if isinstance(n, ast.For)]:
+            if 'get_fields()' in canon(lp.iter) and not any(isinstance(x, (ast.If, ast.Break, ast.Continue)) for s_ in lp.body for x in ast.walk(s_)):
+                sets = [c for s_ in lp.body for c in ast.walk(s_) if isinstance(c, ast.Call) and call_name(c) == 'setattr' and len(c.args) == 3 and call_name(c.args[2]) == 'Any' and not c.args[2].args]
+                if sets and isinstance(lp.target, ast.Tuple) and canon(sets[0].args[1]) == canon(lp.target.elts[0]):
+                    okl = True
+        if okl:
+            ctx.holds(rule, al, 'anything_like: setattr(pkt, field_name, Any()) for every get_fields() entry', 'every field is a don\'t-care', al.node.lineno, clause='h')
+        else:
+            ctx.violation(rule, al, 'anything_like', 'not every field of the packet is set to an unconstrained Any()', al.node.lineno, clause='h')
+
+
 def check_bits(ctx, repo):
     """(f) the four byte shapes of Bits.pack_regexp"""
     rule = 'R12-bits-classes'
@@ -526,6 +590,7 @@ def check(ctx):
     check_assembly(ctx, repo)
     check_prefix_and_match(ctx, repo)
     check_bits(ctx, repo)
+    check_any(ctx, repo)
     # (g) building the pattern is stateless: a cache on a shared object makes the pattern of one
     # packet depend on the patterns built before it
     from .c13 import check_statelessness
